@@ -71,6 +71,18 @@ def cases(rng, tier):
         out.append(one(rng, "range", pairs, v))
     for w in rng_sample(rng, 257, 24 if tier == "quick" else 257):
         out.append(one(rng, "rangert", w, rng.choice(values_for(rng, w))))
+    # the composer's built-in constant witnesses (Composer::ZERO = #0, Composer::ONE = #1) as the checked value
+    for w in ([0, 1, 2, 3, 4, 7, 8, 64, 254, 255, 256] if tier == "quick" else range(0, 257)):
+        for h, v in (("#0", 0), ("#1", 1)):
+            for op in ("rangebits", "rangert"):
+                p = Prog(); p.tags = [op, "constant-handle", "in-range" if v < (1 << w) else "out-of-range"]
+                p.rangebits(w, h, op)
+                out.append(p.case())
+    for pairs in ([0, 1, 2, 127, 128] if tier == "quick" else range(0, 133)):
+        for h, v in (("#0", 0), ("#1", 1)):
+            p = Prog(); p.tags = ["range", "constant-handle"]
+            p.rangepairs(pairs, h)
+            out.append(p.case())
     return out
 
 
